@@ -514,3 +514,29 @@ def verify_function(repo, registry, qualname, max_paths=400, post_hooks=()):
         rep.used_contracts |= ex.used_contracts
         work.extend(ex.forks)
     return rep
+
+
+# --------------------------------------------------------------------------------------------------
+# property-level lemmas over contract clauses (no code involved: hypotheses are contract clauses)
+
+def clause_lemma(ctx, name, setup, hyps, goals, where="lemma"):
+    """obligations  hyps |- goal_i  with all clauses evaluated over the symbolic environment `setup(S)`"""
+    V._counter = __import__("itertools").count(10**6)
+    ex = Exec(ctx.repo, ctx.registry)
+    sfac = S(ex)
+    env = setup(sfac)
+    fr = Frame(None, env, None)
+    ex.frames.append(fr)
+    hs = []
+    for h in hyps:
+        cl = h[1] if isinstance(h, tuple) else h
+        hs.append(eval_clause(ex, cl, env=env))
+    out = []
+    for g in goals:
+        nm, cl = g if isinstance(g, tuple) else ("goal", g)
+        f = eval_clause(ex, cl, env=env)
+        f = f if is_z3(f) else z3.BoolVal(bool(f))
+        ob = symex.Obligation("lemma:%s:%s" % (name, nm), [h for h in hs if is_z3(h)], f, "lemma", where,
+                              meta={"leaves": sfac.leaves})
+        out.append(ob)
+    return out
